@@ -36,12 +36,23 @@ def main():
     root = Path(tempfile.mkdtemp(prefix="xvlib-"))
     out = []
     try:
-        mods = [cfgbuild.load_library(lib, root) for lib in data["libs"]]
+        mods = []
+        for lib in data["libs"]:
+            try:
+                mods.append(cfgbuild.load_library(lib, root))
+            except Exception as e:
+                # the tree under test refuses the class definitions of a generated library: every case on it is an
+                # unbuildable case (an observation about that tree), not a failure of the worker
+                mods.append(RuntimeError(f"library cannot be loaded: {type(e).__name__}: {e}"[:300]))
         flagged = set()
         for case in data["cases"]:
             mod = mods[case["lib"]]
             lib = data["libs"][case["lib"]]
             rec = {"lines": [], "impl": [], "error": None, "argsrc": {}}
+            if isinstance(mod, Exception):
+                rec["error"] = str(mod)
+                out.append(rec)
+                continue
             if case["lib"] not in flagged:
                 # once per library: the flags the model derives from every declaration against the real `Argument` objects
                 flagged.add(case["lib"])
